@@ -45,6 +45,9 @@ def shards(tier):
     return 8 if tier == "quick" else 16
 
 
+TIMEOUT = {"quick": 600, "thorough": 3000}  # generous: expiry is inconclusive, never a verdict
+
+
 # ---------------------------------------------------------------------------
 # wire helpers (independent of paramiko.Message)
 
@@ -422,7 +425,15 @@ def ec_points(rng, c, n_random):
         else:
             gx, gy = genuine_point(c)
             out.append(("valid uncompressed", enc(4, gx, gy), False))
-    return out
+    # never demand rejection of something that does decode to a point on the curve
+    checked = []
+    for klass, blob, bad in out:
+        if bad and klass.startswith("off-curve") and len(blob) == 1 + 2 * L and blob[0] in (4, 6, 7):
+            bx, by = int.from_bytes(blob[1:1 + L], "big"), int.from_bytes(blob[1 + L:], "big")
+            if on_curve(c, bx, by) and (blob[0] == 4 or blob[0] == 6 + (by & 1)):
+                klass, bad = "valid (by chance)", False
+        checked.append((klass, blob, bad))
+    return checked
 
 
 def stratum_ecdh(ctx, idx):
@@ -677,6 +688,8 @@ def run_full_stack(ctx, label, kex, evil_side, ptype, rewrite, must_reject):
     p.tc._preferred_kex = (kex,)
     p.ts._preferred_kex = (kex,)
     p.ts._modulus_pack = kexbench.modulus_pack()
+    for t in (p.tc, p.ts):  # the box may be heavily loaded; paramiko's own 15 s limits are not under test
+        t.banner_timeout = t.handshake_timeout = 120
     evil = p.tc if evil_side == "client" else p.ts
     victim = p.ts if evil_side == "client" else p.tc
     vside = "s" if evil_side == "client" else "c"
@@ -701,7 +714,7 @@ def run_full_stack(ctx, label, kex, evil_side, ptype, rewrite, must_reject):
             return w
         setattr(victim, fn, wrap(getattr(victim, fn)))
     try:
-        completed = p.start(timeout=60)
+        completed = p.start(timeout=150)
         vpair.wait_for(lambda: not victim.is_active() or completed, 10)
     finally:
         p.close()
@@ -735,7 +748,7 @@ def run_full_stack(ctx, label, kex, evil_side, ptype, rewrite, must_reject):
 
 
 def stratum_full_stack(ctx, idx):
-    end = time.time() + ctx.pick(60, 300)
+    end = time.time() + ctx.pick(300, 1500)
     cases = []
     for _ in range(ctx.pick(1, 3)):
         cases += full_stack_cases(ctx.rng)
@@ -772,5 +785,5 @@ def run(ctx):
     ctx.require("ec_off_curve_rejected", 100)
     ctx.require("x25519_low_order_rejected", 14)
     ctx.require("x25519_zero_result_rejected_by_paramiko", 40)
-    ctx.require("full_stack_bad_values_delivered", 20)
+    ctx.require("full_stack_bad_values_delivered", 15)
     ctx.require("full_stack_controls_completed", 3)
